@@ -271,25 +271,23 @@ class NF(object):
         n, d = r
         if not n:
             return "0"
-        cn = tuple((k, e) for k, e in mono_content([n]) if k[0] in "vp")
-        cd = tuple((k, e) for k, e in mono_content([d]) if k[0] in "vp")
+        cn = tuple((k, e) for k, e in mono_content([n]) if k[0] == "v")
+        cd = tuple((k, e) for k, e in mono_content([d]) if k[0] == "v")
         if cn:
             n = poly_div_mono(n, cn)
         if cd:
             d = poly_div_mono(d, cd)
-        m = mono_mul(cn, tuple((k, lf_scale(e, -1)) for k, e in cd))
-        coef = Q(1)
-        mm = []
-        for k, e in m:
-            if k[0] == "p":
-                cp = lf_constpart(e)
-                fl = cp.numerator // cp.denominator
-                coef *= Q(int(k[2:])) ** fl
-                e = lf_add(e, lf_const(-fl))
-            if e:
-                mm.append((k, e))
+        mm = list(mono_mul(cn, tuple((k, lf_scale(e, -1)) for k, e in cd)))
+        if len(d) == 1:
+            # monomial denominator (a constant times prime powers / other atoms): move it into the numerator;
+            # pmul brings prime-power exponents back into [0,1)
+            (md, cdd), = d.items()
+            if all(k[0] == "p" for k, _ in md):
+                inv = tuple((k, lf_scale(e, -1)) for k, e in md)
+                n = self.pmul(n, {inv: 1 / cdd})
+                d = POLY_ONE
         lead = sorted(d.items(), key=lambda kv: repr(kv[0]))[0][1]
-        n = poly_scale(n, coef / lead)
+        n = poly_scale(n, 1 / lead)
         d = poly_scale(d, 1 / lead)
         ms = "*".join("%s^(%s)" % (k, lf_show(e)) for k, e in mm)
         body = self.canon_poly(n) if d == POLY_ONE else "(%s)/(%s)" % (self.canon_poly(n), self.canon_poly(d))
